@@ -195,6 +195,8 @@ def consumed (w : World) : List Grant := w.served.filterMap (·.grant)
 def held (w : World) : List Grant := w.server.grants ++ allActions w.sessions ++ consumed w
 
 structure Inv (w : World) : Prop where
+  /-- conservation: every issued grant is in exactly one place -/
+  perm : (held w).Perm w.issued
   keyBound : ∀ s ∈ w.sessions, ∀ g ∈ s.actions, g.user = s.user ∧ g.key = s.key
   servedOk : ∀ x ∈ w.served, ∀ g, x.grant = some g →
     x.handler = .codex ∧ x.usingGrant = true ∧ g.user = x.user ∧ g.key = x.key ∧
@@ -202,7 +204,8 @@ structure Inv (w : World) : Prop where
   codexGranted : ∀ x ∈ w.served, x.usingGrant = true → x.handler = .codex → ∃ g, x.grant = some g
 
 theorem inv_empty : Inv World.empty :=
-  ⟨by intro s hs; simp [World.empty] at hs, by intro x hx; simp [World.empty] at hx,
+  ⟨by simp [held, World.empty, Server.empty, allActions, consumed],
+   by intro s hs; simp [World.empty] at hs, by intro x hx; simp [World.empty] at hx,
    by intro x hx; simp [World.empty] at hx⟩
 
 theorem count_filter_split (p : Grant → Bool) (l : List Grant) (a : Grant) :
@@ -218,19 +221,44 @@ theorem keyBound_of_shrinks {ss' ss : List Session} (hs : Shrinks ss' ss)
   have := h s hm g (hsub g hg)
   rw [hu, hk]; exact this
 
-theorem step_inv (w : World) (op : Op) (h : Inv w) :
-    Inv (stepW w op) ∧ (held (stepW w op)).Perm (held w ++ issued [op]) := by
+/-- appending a served entry that consumed no grant, other than through `startCodex` -/
+theorem served_append_none {w : World} (h : Inv w) (x : Served) (hg : x.grant = none)
+    (hh : x.handler ≠ .codex ∨ x.usingGrant = false) :
+    (∀ y ∈ w.served ++ [x], ∀ g, y.grant = some g →
+        y.handler = .codex ∧ y.usingGrant = true ∧ g.user = y.user ∧ g.key = y.key ∧
+          admits y.now y.cmd y.shell g = true) ∧
+      (∀ y ∈ w.served ++ [x], y.usingGrant = true → y.handler = .codex → ∃ g, y.grant = some g) := by
+  constructor
+  · intro y hy g hyg
+    rcases List.mem_append.mp hy with hy | hy
+    · exact h.servedOk y hy g hyg
+    · simp only [List.mem_singleton] at hy
+      subst hy
+      simp [hg] at hyg
+  · intro y hy hu hc
+    rcases List.mem_append.mp hy with hy | hy
+    · exact h.codexGranted y hy hu hc
+    · simp only [List.mem_singleton] at hy
+      subst hy
+      rcases hh with hh | hh
+      · exact absurd hc hh
+      · simp [hh] at hu
+
+theorem step_inv (w : World) (op : Op) (h : Inv w) : Inv (stepW w op) := by
+  have hperm := h.perm
+  rw [List.perm_iff_count] at hperm
   cases op with
   | grant g =>
-    refine ⟨⟨h.keyBound, h.servedOk, h.codexGranted⟩, ?_⟩
+    refine ⟨?_, h.keyBound, h.servedOk, h.codexGranted⟩
     rw [List.perm_iff_count]
     intro a
-    simp only [stepW, held, addGrant, consumed, issued, List.count_append]
+    have := hperm a
+    simp only [stepW, held, addGrant, consumed, List.count_append] at this ⊢
     omega
   | login u k =>
     simp only [stepW]
     cases hl : (login w.server u k).2 with
-    | none => exact ⟨h, by simp [issued]⟩
+    | none => exact h
     | some s =>
       simp only
       unfold login at hl ⊢
@@ -238,7 +266,14 @@ theorem step_inv (w : World) (op : Op) (h : Inv w) :
       · simp [he] at hl
       · simp only [he, Bool.false_eq_true, if_false, Option.some.injEq] at hl ⊢
         subst hl
-        refine ⟨⟨?_, h.servedOk, h.codexGranted⟩, ?_⟩
+        refine ⟨?_, ?_, h.servedOk, h.codexGranted⟩
+        · rw [List.perm_iff_count]
+          intro a
+          have h1 := count_filter_split (mine u k) w.server.grants a
+          have h2 := hperm a
+          simp only [held, allActions, consumed, List.count_append, List.flatMap_append,
+            List.flatMap_cons, List.flatMap_nil, List.append_nil] at h2 ⊢
+          omega
         · intro s hs g hg
           rcases List.mem_append.mp hs with hs | hs
           · exact h.keyBound s hs g hg
@@ -246,14 +281,10 @@ theorem step_inv (w : World) (op : Op) (h : Inv w) :
             subst hs
             simp only [List.mem_filter, mine, Bool.and_eq_true, beq_iff_eq] at hg
             exact hg.2
-        · rw [List.perm_iff_count]
-          intro a
-          have := count_filter_split (mine u k) w.server.grants a
-          simp only [held, allActions, consumed, issued, List.count_append, List.flatMap_append,
-            List.flatMap_cons, List.flatMap_nil, List.append_nil]
-          omega
   | loginKey u k =>
-    refine ⟨⟨?_, h.servedOk, h.codexGranted⟩, ?_⟩
+    refine ⟨?_, ?_, h.servedOk, h.codexGranted⟩
+    · have := h.perm
+      simpa [stepW, held, allActions, consumed] using this
     · intro s hs g hg
       simp only [stepW] at hs
       rcases List.mem_append.mp hs with hs | hs
@@ -261,37 +292,34 @@ theorem step_inv (w : World) (op : Op) (h : Inv w) :
       · simp only [List.mem_singleton] at hs
         subst hs
         simp at hg
-    · simp [stepW, held, allActions, consumed, issued]
   | exec i now cmd shell =>
     simp only [stepW]
     rcases hx : execAt now cmd shell w.sessions i with ⟨ss', r⟩
     rcases r with _ | ⟨s, o⟩
-    · exact ⟨h, by simp [issued]⟩
+    · exact h
     · cases o with
-      | refused => exact ⟨h, by simp [issued]⟩
+      | refused => exact h
       | started og =>
         cases og with
         | none =>
           obtain ⟨h1, hm, hu⟩ := execAt_started_none hx
           subst h1
-          refine ⟨⟨h.keyBound, ?_, ?_⟩, ?_⟩
-          · intro x hxm g hg
-            rcases List.mem_append.mp hxm with hxm | hxm
-            · exact h.servedOk x hxm g hg
-            · simp only [List.mem_singleton] at hxm
-              subst hxm
-              simp at hg
-          · intro x hxm hug hh
-            rcases List.mem_append.mp hxm with hxm | hxm
-            · exact h.codexGranted x hxm hug hh
-            · simp only [List.mem_singleton] at hxm
-              subst hxm
-              simp [hu] at hug
-          · simp [held, consumed, issued, List.filterMap_append]
+          obtain ⟨a1, a2⟩ := served_append_none h
+            ⟨s.user, s.key, s.usingGrant, .codex, now, cmd, shell, none⟩ rfl (.inr hu)
+          refine ⟨?_, h.keyBound, a1, a2⟩
+          have := h.perm
+          simpa [held, consumed, List.filterMap_append] using this
         | some g =>
           obtain ⟨hm, hu, hg, hadm, hp, hs⟩ := execAt_started_some hx
           have hkb := h.keyBound s hm g hg
-          refine ⟨⟨keyBound_of_shrinks hs h.keyBound, ?_, ?_⟩, ?_⟩
+          refine ⟨?_, keyBound_of_shrinks hs h.keyBound, ?_, ?_⟩
+          · rw [List.perm_iff_count]
+            intro a
+            have h1 := hp.count_eq a
+            have h2 := hperm a
+            simp only [held, consumed, List.count_append, List.filterMap_append,
+              List.filterMap_cons, List.filterMap_nil, List.count_cons, List.count_nil] at h1 h2 ⊢
+            omega
           · intro x hxm g' hg'
             rcases List.mem_append.mp hxm with hxm | hxm
             · exact h.servedOk x hxm g' hg'
@@ -306,53 +334,80 @@ theorem step_inv (w : World) (op : Op) (h : Inv w) :
             · simp only [List.mem_singleton] at hxm
               subst hxm
               exact ⟨g, rfl⟩
-          · rw [List.perm_iff_count]
-            intro a
-            have := hp.count_eq a
-            simp only [held, consumed, issued, List.count_append, List.filterMap_append,
-              List.filterMap_cons, List.filterMap_nil, List.count_cons, List.count_nil,
-              List.append_nil] at this ⊢
-            omega
   | tube i ttype reliable =>
     simp only [stepW]
     cases hs : w.sessions[i]? with
-    | none => exact ⟨h, by simp [issued]⟩
+    | none => exact h
     | some s =>
       simp only
       split
-      · exact ⟨h, by simp [issued]⟩
+      · exact h
       · next hne =>
-        refine ⟨⟨h.keyBound, ?_, ?_⟩, ?_⟩
-        · intro x hxm g hg
-          rcases List.mem_append.mp hxm with hxm | hxm
-          · exact h.servedOk x hxm g hg
-          · simp only [List.mem_singleton] at hxm
-            subst hxm
-            simp at hg
-        · intro x hxm hug hh
-          rcases List.mem_append.mp hxm with hxm | hxm
-          · exact h.codexGranted x hxm hug hh
-          · simp only [List.mem_singleton] at hxm
-            subst hxm
-            simp only at hh
-            exact absurd (Or.inr (Or.inr hh)) hne
-        · simp [held, consumed, issued, List.filterMap_append]
+        obtain ⟨a1, a2⟩ := served_append_none h
+          ⟨s.user, s.key, s.usingGrant, dispatch s ttype reliable, 0, [], false, none⟩ rfl
+          (.inl (fun hc => hne (Or.inr (Or.inr hc))))
+        refine ⟨?_, h.keyBound, a1, a2⟩
+        have := h.perm
+        simpa [held, consumed, List.filterMap_append] using this
+  | issue i now g leafOk =>
+    simp only [stepW]
+    cases hs : w.sessions[i]? with
+    | none => exact h
+    | some s =>
+      simp only
+      split
+      · obtain ⟨a1, a2⟩ := served_append_none h
+          ⟨s.user, s.key, s.usingGrant, .agc, now, [], false, none⟩ rfl (.inl (by simp))
+        refine ⟨?_, h.keyBound, a1, a2⟩
+        rw [List.perm_iff_count]
+        intro a
+        have := hperm a
+        simp only [held, addGrant, consumed, List.count_append, List.filterMap_append,
+          List.filterMap_cons, List.filterMap_nil, List.count_nil] at this ⊢
+        omega
+      · exact h
 
-theorem issued_append (a b : List Op) : issued (a ++ b) = issued a ++ issued b := by
-  induction a with
-  | nil => rfl
-  | cons x xs ih => cases x <;> simp [issued, ih]
-
-theorem run_inv (w : World) (ops : List Op) (h : Inv w) :
-    Inv (runW w ops) ∧ (held (runW w ops)).Perm (held w ++ issued ops) := by
+theorem run_inv (w : World) (ops : List Op) (h : Inv w) : Inv (runW w ops) := by
   induction ops generalizing w with
-  | nil => exact ⟨h, by simp [runW, issued]⟩
+  | nil => exact h
+  | cons op ops ih => exact ih (stepW w op) (step_inv w op h)
+
+/-- where issued grants come from -/
+theorem issued_sources (w : World) (ops : List Op) (g : Grant) (h : g ∈ (runW w ops).issued) :
+    g ∈ w.issued ∨ Op.grant g ∈ ops ∨ ∃ i now ok, Op.issue i now g ok ∈ ops := by
+  induction ops generalizing w with
+  | nil => exact .inl h
   | cons op ops ih =>
-    obtain ⟨h1, p1⟩ := step_inv w op h
-    obtain ⟨h2, p2⟩ := ih (stepW w op) h1
-    refine ⟨h2, ?_⟩
-    have : issued (op :: ops) = issued [op] ++ issued ops := issued_append [op] ops
-    rw [this, ← List.append_assoc]
-    exact p2.trans (List.Perm.append_right _ p1)
+    rcases ih (stepW w op) h with h1 | h1 | ⟨i, now, ok, h1⟩
+    · cases op with
+      | grant g' =>
+        simp only [stepW, List.mem_append, List.mem_singleton] at h1
+        rcases h1 with h1 | rfl
+        · exact .inl h1
+        · exact .inr (.inl (by simp))
+      | login u k =>
+        simp only [stepW] at h1
+        split at h1 <;> exact .inl h1
+      | loginKey u k => exact .inl h1
+      | exec i now cmd shell =>
+        simp only [stepW] at h1
+        split at h1 <;> exact .inl h1
+      | tube i t r =>
+        simp only [stepW] at h1
+        split at h1
+        · split at h1 <;> exact .inl h1
+        · exact .inl h1
+      | issue i now g' ok =>
+        simp only [stepW] at h1
+        split at h1
+        · split at h1
+          · simp only [List.mem_append, List.mem_singleton] at h1
+            rcases h1 with h1 | rfl
+            · exact .inl h1
+            · exact .inr (.inr ⟨i, now, ok, by simp⟩)
+          · exact .inl h1
+        · exact .inl h1
+    · exact .inr (.inl (by simp [h1]))
+    · exact .inr (.inr ⟨i, now, ok, by simp [h1]⟩)
 
 end Grants
